@@ -98,7 +98,7 @@ def wait_or_hang(done, beat, threads):
     same Python instruction for a while -- a merely slow or descheduled thread is runnable, not asleep.  The first hang of a process
     is confirmed over a longer time than later ones.  Last resort: no progress at all for several minutes."""
     first = HANGS["seen"] == 0
-    need = 4.0 if first else 0.6
+    need = 6.0 if first else 0.6
     hard = 240.0 if first else 45.0
     last, t_last, since, sig0 = beat(), _time.monotonic(), None, None
     while not done.wait(0.05):
@@ -243,6 +243,8 @@ class JobBoard:
                     WORLD.gates[threading.get_ident()] = gate
                     try:
                         j.fn(*args)
+                    except Hang as h:
+                        j.hang = str(h)
                     finally:
                         WORLD.gates.pop(threading.get_ident(), None)
                         gate.at_gate = False
@@ -258,6 +260,8 @@ class JobBoard:
                 t.join(60)
         finally:
             reg.fault = False
+        if getattr(j, "hang", None) or (j.kind == "out" and j.thread.is_alive()):
+            raise Hang(getattr(j, "hang", None) or "page-out body did not end within 60 s")
         if len(got) != 1:
             raise RuntimeError(f"disk job body called its callback {len(got)} times")
         j.ok, j.phase = got[0], "cb"
@@ -270,6 +274,8 @@ class JobBoard:
         j.gate.progress.clear()
         j.gate.go.set()
         j.thread.join(60)
+        if getattr(j, "hang", None) or j.thread.is_alive():
+            raise Hang(getattr(j, "hang", None) or "page-out body did not end within 60 s of its unlink")
         if len(j.got) != 1:
             raise RuntimeError(f"disk job body called its callback {len(j.got)} times")
         j.ok, j.phase = j.got[0], "cb"
